@@ -254,6 +254,11 @@ func parse(block txt.Block) (klog.Record, []txt.Error) {
 
 		// Check for error while parsing the entry summary.
 		if esErr != nil {
+			// The entry itself can be faulty, too (e.g. a second open range). As it
+			// sits on a preceding line, that problem has to be reported first.
+			if eErr := createEntry(nil); eErr != nil {
+				errs = append(errs, eErr)
+			}
 			errs = append(errs, esErr)
 			continue
 		}
